@@ -9,13 +9,13 @@ open RdfModel RdfModel.Desc RdfModel.JL RdfModel.C10
 
 variable {β : Type}
 
-theorem renderDoc_sound (name : β → Str) (ch : Choices) (cj : Option Json) (c : Ctx) (F : Forest β) (doc : Json)
-    (h : renderDoc name ch cj c F = some doc) :
+theorem renderDoc_sound (name : β → Str) (ch : Choices) (cj : Option Json) (c : Ctx) (loc : Option Json)
+    (F : Forest β) (doc : Json) (h : renderDoc name ch cj c loc F = some doc) :
     ∃ n0, toRdf ch.mode11 ch.base doc = some (denForest name F n0).1 := by
   unfold renderDoc at h
   obtain ⟨n0, _, hn⟩ := List.exists_of_findSome?_eq_some h
   refine ⟨n0, ?_⟩
-  cases hr : renderForest name c ch F n0 with
+  cases hr : renderForest name c ch loc F n0 with
   | none => simp [hr] at hn
   | some r =>
     obtain ⟨entries, n1⟩ := r
@@ -28,22 +28,28 @@ theorem renderDoc_sound (name : β → Str) (ch : Choices) (cj : Option Json) (c
       exact hc.2
     · cases hn
 
+theorem renderCtx_sound (name : β → Str) (ch : Choices) (loc : Option Json) (F : Forest β) (doc : Json)
+    (h : renderCtx name ch loc F = some doc) :
+    ∃ n0, toRdf ch.mode11 ch.base doc = some (denForest name F n0).1 := by
+  unfold renderCtx at h
+  split at h
+  · cases h
+  · next cj =>
+    split at h
+    · cases h
+    · next c hc => exact renderDoc_sound name ch _ _ _ _ _ h
+
 theorem renderWith_sound (name : β → Str) (ch : Choices) (F : Forest β) (doc : Json)
     (h : renderWith name ch F = some doc) :
     ∃ n0, toRdf ch.mode11 ch.base doc = some (denForest name F n0).1 := by
   unfold renderWith at h
-  simp only [] at h
   split at h
-  · next d' hd =>
-    simp only [Option.some.injEq] at h
-    subst h
-    split at hd
-    · cases hd
-    · next cj =>
-      split at hd
-      · cases hd
-      · next c hc => exact renderDoc_sound name ch _ _ _ _ hd
-  · exact renderDoc_sound name ch _ _ _ _ h
+  · next d' hd => cases h; exact renderCtx_sound name ch _ _ _ hd
+  · split at h
+    · next d' hd => cases h; exact renderCtx_sound name ch _ _ _ hd
+    · split at h
+      · next d' hd => cases h; exact renderDoc_sound name ch _ _ _ _ _ hd
+      · exact renderDoc_sound name ch _ _ _ _ _ h
 
 theorem outQuad_iso (name : β → Str) (hname : Function.Injective name) (d : List (DQuad β)) :
     Spec.IsoQ (d.map (outQuad name)) d := by
